@@ -21,8 +21,8 @@ def run(seed, pid, root, evdir):
     try:
         r = subprocess.run([PY, "-m", "fdcheck", pid, "--root", root], cwd=VERIF, env=env, capture_output=True, text=True, timeout=900)
         rc = r.returncode
-        lines = [l.strip() for l in r.stdout.splitlines() if l.startswith("  ") and "  --  " in l.replace(" -- ", "  --  ")]
-        rules = sorted({l.split()[2] if len(l.split()) > 2 else "?" for l in r.stdout.splitlines() if l.startswith("  ") and " -- " in l})
+        # a report line is  "  file:line  construct  RULE  -- message": the rule is the last token before " -- "
+        rules = sorted({l.split(" -- ")[0].split()[-1] for l in r.stdout.splitlines() if l.startswith("  ") and " -- " in l and l.split(" -- ")[0].split()})
     except subprocess.TimeoutExpired:
         rc, rules = 3, ["TIMEOUT"]
     return seed, pid, rc, rules
